@@ -505,7 +505,11 @@ func spellingClassOf(c chainCase, k int, hostport string) string {
 	// the hop that sent the client here is the closest earlier hop with an absolute form
 	for j := k - 1; j >= 0 && j < len(c.Hops); j-- {
 		if c.Hops[j].Class != "same" {
-			return strings.TrimPrefix(strings.TrimPrefix(c.Hops[j].Class, "U:"), "T:")
+			cl := strings.TrimPrefix(strings.TrimPrefix(c.Hops[j].Class, "U:"), "T:")
+			if strings.HasPrefix(cl, "unicode-fold") {
+				return "unicode-fold" // one root cause: the three spellings differ only in which rune folds
+			}
+			return cl
 		}
 	}
 	return "initial"
@@ -515,10 +519,9 @@ func judge(c chainCase, o outcome, initialHostname string, ev func(string, int))
 	if o.Panic != "" {
 		return []violation{{"panic", "panic inside the client call: " + o.Panic}}
 	}
-	flavour := ""
-	if c.NoNormalize && c.LowerNames {
-		flavour = ":names-not-normalized"
-	}
+	// One root cause per key: the spelling class of the host that got the secret, or the
+	// header-name flavour under which nothing is stripped at all. Header names go into the text.
+	namesVerbatim := c.NoNormalize && c.LowerNames
 	userinfoB64 := base64.StdEncoding.EncodeToString([]byte("uINFO-" + c.Token + ":pw"))
 	for k, s := range o.Reqs {
 		dialTrusted := refTrusted(s.Dial, initialHostname)
@@ -526,25 +529,33 @@ func judge(c chainCase, o outcome, initialHostname string, ev func(string, int))
 		hostTrusted := refTrusted(hostHdr, initialHostname)
 		text := headText(s)
 		carried := 0
+		var leaked []string
 		for _, sv := range sensitives {
-			if !strings.Contains(text, sv.prefix+c.Token) {
-				continue
+			if strings.Contains(text, sv.prefix+c.Token) {
+				carried++
+				leaked = append(leaked, sv.name)
 			}
-			carried++
+		}
+		if len(leaked) > 0 {
 			viaClient := strings.HasPrefix(c.API, "Client.")
+			key, where := "", ""
 			switch {
 			case viaClient && !dialTrusted:
-				vs = append(vs, violation{"leak:" + strings.ToLower(sv.name) + ":" + spellingClassOf(c, k, s.Dial) + flavour,
-					fmt.Sprintf("request #%d to dialled host %q (initial host %q) carries the caller's %s", k, s.Dial, initialHostname, sv.name)})
+				key, where = "leak:"+spellingClassOf(c, k, s.Dial), fmt.Sprintf("to dialled host %q", s.Dial)
 			case !hostTrusted:
-				vs = append(vs, violation{"leak-by-host-header:" + strings.ToLower(sv.name) + ":" + spellingClassOf(c, k, hostHdr) + flavour,
-					fmt.Sprintf("request #%d with Host %q (initial host %q, dialled %q) carries the caller's %s", k, hostHdr, initialHostname, s.Dial, sv.name)})
+				key, where = "leak:"+spellingClassOf(c, k, hostHdr), fmt.Sprintf("with Host header %q (dialled %q)", hostHdr, s.Dial)
+			}
+			if key != "" {
+				if namesVerbatim {
+					key = "leak:lower-case-header-names-with-normalizing-disabled"
+				}
+				vs = append(vs, violation{key, fmt.Sprintf("request #%d %s (initial host %q) carries the caller's %s", k, where, initialHostname, strings.Join(leaked, ", "))})
 			}
 		}
 		if c.Userinfo && strings.Contains(text, userinfoB64) {
 			carried++
 			if !dialTrusted || !hostTrusted {
-				vs = append(vs, violation{"leak:authorization-from-url-userinfo:" + spellingClassOf(c, k, s.Dial),
+				vs = append(vs, violation{"leak:" + spellingClassOf(c, k, s.Dial),
 					fmt.Sprintf("request #%d to %q (Host %q) carries the Basic credentials of the initial URL's userinfo", k, s.Dial, hostHdr)})
 			}
 		}
